@@ -289,6 +289,8 @@ def run(ctx):
                 t.failed("a list view does not ignore the comment line inside a multi-line value", document=doc, expected=want, got=wrong)
         except Exception as e:
             t.failed("reading a multi-line comma value with an inner comment raised %r" % (e,), document=doc)
+    if not t.fail:
+        rm.large_documents(repro, t)
     t.done()
     ctx.level = "other"
     ctx.explanation = ("PROVED from the real AST of debian._util (same contracts as C09): the LinkedList / OrderedSet operations "
